@@ -35,10 +35,10 @@ PROPS['C20'] = dict(
             'xor_old_race': dict(pkg='./cmd/xorchk', overlay='xorold', race=True),
             'xor_old_asan': dict(pkg='./cmd/xorchk', overlay='xorold', asan=True)},
     stages=[dict(name='subtle', bin='xor_default', args=['-impl', 'subtle'], shards=shards(6, 12), par=16, crash_is_violation=True, crash_key='subtle:crash'),
-            dict(name='subtle-asan', bin='xor_default_asan', args=['-impl', 'subtle-asan', '-nq', '48', '-nt', '130'], shards=shards(2, 8), par=16, crash_is_violation=True, crash_key='subtle:crash'),
+            dict(name='subtle-asan', bin='xor_default_asan', args=['-impl', 'subtle-asan', '-nq', '48', '-nt', '130', '-nolong'], shards=shards(2, 8), par=16, crash_is_violation=True, crash_key='subtle:crash'),
             dict(name='wordwise', bin='xor_old', args=['-impl', 'wordwise'], shards=shards(6, 12), par=16, crash_is_violation=True, crash_key='wordwise:crash'),
-            dict(name='wordwise-checkptr', bin='xor_old_race', args=['-impl', 'wordwise-checkptr', '-nq', '48', '-nt', '130'], shards=shards(4, 16), par=16, crash_is_violation=True, crash_key='wordwise:crash'),
-            dict(name='wordwise-asan', bin='xor_old_asan', args=['-impl', 'wordwise-asan', '-nq', '48', '-nt', '130'], shards=shards(4, 16), par=16, crash_is_violation=True, crash_key='wordwise:crash')],
+            dict(name='wordwise-checkptr', bin='xor_old_race', args=['-impl', 'wordwise-checkptr', '-nq', '48', '-nt', '130', '-nolong'], shards=shards(4, 16), par=16, crash_is_violation=True, crash_key='wordwise:crash'),
+            dict(name='wordwise-asan', bin='xor_old_asan', args=['-impl', 'wordwise-asan', '-nq', '48', '-nt', '130', '-nolong'], shards=shards(4, 16), par=16, crash_is_violation=True, crash_key='wordwise:crash')],
     replay_stage='wordwise',
     need_counters=['calls_subtle', 'calls_wordwise', 'calls_wordwise-asan', 'calls_wordwise-checkptr'],
 )
